@@ -303,6 +303,7 @@ EXPORT char *_strtok_s_chk(char *restrict dest, rsize_t *restrict dmaxp,
      * need to continue the scan.
      */
     if (ptoken == NULL) {
+        *ptr = dest;
         *dmaxp = dlen;
         return (ptoken);
     }
@@ -357,6 +358,7 @@ EXPORT char *_strtok_s_chk(char *restrict dest, rsize_t *restrict dmaxp,
         dlen--;
     }
 
+    *ptr = dest;
     *dmaxp = dlen;
     return (ptoken);
 }
